@@ -631,7 +631,7 @@ pub fn run(ctx: &Ctx) -> Report {
     rep.traces = rep.transitions;
     rep.evaluations = rep.transitions;
     rep.nontrivial = rep.outcomes.iter().filter(|(k, _)| k.ends_with(":ok")).map(|(_, v)| *v).sum();
-    rep.bound = format!("BFS: all states up to depth {depth} expanded; {} distinct states; fixpoint reached: {fixpoint}", seen.len());
+    rep.bound = format!("BFS: every operation sequence up to length {depth} executed (all states at depth < {depth} fully expanded); {} distinct states; fixpoint reached: {fixpoint}", seen.len());
     rep.capped = capped;
     rep.exhaustive = fixpoint;
     rep.extra.insert("depth_completed".into(), json!(depth));
